@@ -93,6 +93,12 @@ func (h *H) checkGtsv(id string, seedIdx, n, nrhs int, cls string) {
 
 // checkPt: symmetric positive definite tridiagonal: Dpttrf, Dpttrs, Dptsv, Dptcon.
 func (h *H) checkPt(id string, seedIdx, n, nrhs int, indefinite bool) {
+	h.checkPtScaled(id, seedIdx, n, nrhs, indefinite, 0)
+}
+
+// checkPtScaled is checkPt with d and e scaled by 2^scaleExp (extreme
+// magnitudes: only the factorization identity is judged then).
+func (h *H) checkPtScaled(id string, seedIdx, n, nrhs int, indefinite bool, scaleExp int) {
 	rng := h.c.RNG("pt", seedIdx)
 	cs := h.newCase(id, rng)
 	defer cs.done()
@@ -136,6 +142,14 @@ func (h *H) checkPt(id string, seedIdx, n, nrhs int, indefinite bool) {
 			}
 		}
 	}
+	if scaleExp != 0 {
+		for i := range d {
+			d[i] = math.Ldexp(d[i], scaleExp)
+		}
+		for i := range e {
+			e[i] = math.Ldexp(e[i], scaleExp)
+		}
+	}
 	a := tridiagFull(n, e, d, e)
 	var fd, fe []float64
 	for _, cf := range []cfg{{}, {guard: true}} {
@@ -174,7 +188,10 @@ func (h *H) checkPt(id string, seedIdx, n, nrhs int, indefinite bool) {
 			}
 		}
 		rec := ref.Mul(ref.Mul(l, dm), l.T())
-		cs.band("Dpttrf", "", "chol-reconstruction", ref.MaxDiff(a, rec), 4*eps*a.MaxAbs(), func() string { return what })
+		cs.band("Dpttrf", "", "chol-reconstruction", ref.MaxDiff(a, rec), 4*(eps*a.MaxAbs()+subFloor), func() string { return what })
+	}
+	if scaleExp != 0 {
+		return
 	}
 	b := ref.FromFunc(n, nrhs, func(i, j int) float64 { return rng.Sym() })
 	// Dptsv on fresh data.
